@@ -35,7 +35,7 @@ impl Property for C18 {
         }
     }
     fn required_classes(&self) -> Vec<&'static str> {
-        vec!["shadowed-env-at-row", "row-after-loop-end", "expansion-item>0", "declare", "var-named-like-output"]
+        vec!["shadowed-env-at-row", "row-after-loop-end", "expansion-item>0", "declare", "var-named-like-output", "virtual-error-item", "vars-after-error-item"]
     }
     fn run(&self, s: &Streams) -> CaseOut {
         let mut out = CaseOut::new();
@@ -47,19 +47,24 @@ impl Property for C18 {
             &built.sigs,
             &SpecCfg { palette: Palette::Small, zx: 0, free_layout: false, must_supply: built.must_supply(), both_driver_types: true },
         );
+        let mut spec = spec;
+        if Ch::new(&s[1]).chance(1, 3) {
+            spec.zx = 20;
+        }
         render_case(&mut out, &text, &built.sigs, Some(&spec));
         let f = feats(&built);
         feat_classes(&mut out, &f);
-        let t = ri::run(&built.prog, &built.sigs, &spec, &ri::RiOpts::default());
+        let t = ri::run(&built.prog, &built.sigs, &spec, &ri::RiOpts { continue_after_virtual_error: true, ..Default::default() });
         fact_classes(&mut out, &t);
         if matches!(t.end, ri::RiEnd::StepCap) && t.items.is_empty() {
             out.discard("step-cap-before-first-row");
             return out;
         }
-        if matches!(t.end, ri::RiEnd::Error) {
-            out.discard("hazard-in-total-profile");
-            return out;
-        }
+        // the run may contain error items caused by virtual signals (Z/X answers); the caller
+        // goes on and keeps inspecting vars() at the rows that follow. Any other hazard ends
+        // the reference run: the comparison then covers the prefix.
+        let virt_errs = t.items.iter().filter(|i| matches!(i, ri::RiItem::Hazard { after_call: true, .. })).count();
+        out.class_if(virt_errs > 0, "virtual-error-item");
         let Some(tc) = load_wellformed(&mut out, "c18", &text, &built.sigs) else {
             return out;
         };
@@ -67,7 +72,7 @@ impl Property for C18 {
             &tc,
             &built.sigs,
             &spec,
-            &RunOpts { max_next: next_budget(&t), want_vars: true, ..Default::default() },
+            &RunOpts { max_next: next_budget(&t), want_vars: true, continue_after_error: true, ..Default::default() },
         );
         if let Some(RealItem::Panic(p)) = &real.ctor {
             out.fail(p.key(), format!("constructor panicked: {p}"));
@@ -77,6 +82,9 @@ impl Property for C18 {
         let mut named_like_output = false;
         for (i, item) in t.items.iter().enumerate() {
             let ri::RiItem::Row(r) = item else { continue };
+            if t.items[..i].iter().any(|x| matches!(x, ri::RiItem::Hazard { .. })) {
+                out.class("vars-after-error-item");
+            }
             match real.items.get(i) {
                 Some(RealItem::Row(_)) => {}
                 Some(RealItem::Panic(p)) => {
